@@ -211,7 +211,15 @@ Six sub-agents wrote three non-trivial, behaviour-preserving refactorings each
 dispatch, scanner/parser restructuring, query builder tables, cache and public
 API, reflection removal / hashing) — stored under `/verif/benign/`. Each was
 applied to /repo alone and **all 17 quick checks** were run
-(`tools/benign_eval.sh`): {len(benign)} refactorings x 17 checks, every check exited 0.
+(`tools/benign_eval.sh`): every check exited 0. A seventh sub-agent
+implemented eight *spec-conformance improvements that lie outside every listed
+property* (union in document order, sum() NaN on non-numeric nodes, concat()
+converting numbers, trailing garbage rejected, `p:*` matching, per-element
+`@*[n]`, document-order first node for name(ancestor::*) — the open C14
+finding, for which the check then simply prints no KNOWN-FINDING line —, and
+`'1' < 2` in written order); these change observable behaviour, but none of
+it is behaviour a listed property fixes, and again no check raised an alarm:
+{len(benign)} changes x 17 checks, all exit 0.
 
 ```
 ''' + '\n'.join(benign) + '''
